@@ -284,3 +284,71 @@ Example C07_ex_vendor_yang_action :
   (match vx_op (vbuild_under DefaultNs vx_mid (VSMdCliRawCommand None)) with Some op => name_of op = qn NS_YANG s_action | None => False end)
   /\ (match vx_op (vbuild_under Prefixed vx_mid (VSMdCliRawCommand None)) with Some op => name_of op = b_ s_action | None => False end).
 Proof. vm_compute. split; reflexivity. Qed.
+
+(* ================= namespace bindings in scope at the caller's elements (Model/NsScope.v) ================= *)
+From NC Require Import Model.NsScope.
+From NC Require Import Proofs.NsScopeProofs.
+
+(* Caller data may use a namespace prefix only inside content (the select string of an XPath filter given with a prefix map, an
+   identityref / instance-identifier value).  For EVERY scope [s] the envelope and the builder's elements put around the caller's
+   document, every document [t], every element of it (path [p]) and every binding in scope there: the binding is in scope at the
+   same element of the request - provided no declaration of the document repeats a namespace URI already bound where the
+   declaring element's parent stands ([fresh]; without it see C07_ns_redundant_decl_refuted). *)
+Theorem C07_ns_bindings_carried : forall (s : scope) (t : dtree) (p : list nat) (sc : scope),
+  fresh s t = true -> scope_at [] t p = Some sc ->
+  exists sc', scope_at s (place s t) p = Some sc' /\ forall pf u, lookup pf sc = Some u -> lookup pf sc' = Some u.
+Proof. exact c07_ns_bindings_carried. Qed.
+Print Assumptions C07_ns_bindings_carried.
+
+(* filter=("xpath", (nsmap, select)): every entry of the caller's prefix map is in scope at <filter> *)
+Theorem C07_ns_xpath_nsmap_carried : forall (s : scope) (nsmap : list binding),
+  forallb (fun b => negb (uri_visible (snd b) s)) nsmap = true ->
+  exists sc', scope_at s (place s (xpath_filter nsmap)) [] = Some sc'
+              /\ forall pf u, lookup pf nsmap = Some u -> lookup pf sc' = Some u.
+Proof. exact c07_ns_xpath_nsmap_carried. Qed.
+Print Assumptions C07_ns_xpath_nsmap_carried.
+
+(* No proviso: a declaration of the moved document's root is dropped if and only if its namespace URI is already bound, under
+   some prefix, at the new parent - the exact predicate of the open finding C07-redundant-ns-declaration-dropped. *)
+Theorem C07_ns_dropped_iff_redundant : forall (s : scope) (d : list binding) (kids : list dtree) (b : binding),
+  In b d ->
+  (In b (match place s (DNode d kids) with DNode d' _ => d' end) <-> uri_visible (snd b) s = false).
+Proof. exact c07_ns_dropped_iff_redundant. Qed.
+Print Assumptions C07_ns_dropped_iff_redundant.
+
+(* ... and nothing else happens to declarations: element by element, what is on the wire is a sub-list of what the caller wrote *)
+Theorem C07_ns_place_only_removes : forall (s : scope) (t : dtree),
+  Forall2 (fun a b => incl a b) (decls_preorder (place s t)) (decls_preorder t).
+Proof. intros s t. apply place_decls_subset. Qed.
+Print Assumptions C07_ns_place_only_removes.
+
+Definition nx_B := Eval compute in lit "urn:ietf:params:xml:ns:netconf:base:1.0"%string.
+Definition nx_if := Eval compute in lit "urn:ietf:params:xml:ns:yang:ietf-interfaces"%string.
+Definition nx_iana := Eval compute in lit "urn:ietf:params:xml:ns:yang:iana-if-type"%string.
+Definition nx_ianaift := Eval compute in lit "ianaift"%string.
+Definition nx_nc := Eval compute in lit "nc"%string.
+(* <config xmlns=B><interfaces xmlns=IF><interface><type xmlns:ianaift=IANA>ianaift:ethernetCsmacd</type></interface></interfaces></config> *)
+Definition nx_doc : dtree :=
+  DNode [([], nx_B)] [DNode [([], nx_if)] [DNode [] [DNode [(nx_ianaift, nx_iana)] []]]].
+(* the nexus envelope: default namespace = base, and a prefix "if" of its own *)
+Definition nx_env : scope := [(lit "if"%string, lit "http://www.cisco.com/nxos:1.0:if_manager"%string); ([], nx_B)].
+
+(* non-vacuity: the identityref document is fresh under a prefixed envelope; its ianaift binding is in scope at <type> on the wire *)
+Example C07_ex_ns_bindings :
+  fresh [(nx_nc, nx_B)] (DNode [] [DNode [([], nx_if)] [DNode [] [DNode [(nx_ianaift, nx_iana)] []]]]) = true
+  /\ option_map (lookup nx_ianaift) (scope_at [] nx_doc [0%nat; 0%nat; 0%nat]) = Some (Some nx_iana)
+  /\ option_map (lookup nx_ianaift) (scope_at nx_env (place nx_env nx_doc) [0%nat; 0%nat; 0%nat]) = Some (Some nx_iana)
+  /\ decls_preorder (place nx_env nx_doc) = [[]; [([], nx_if)]; []; [(nx_ianaift, nx_iana)]].
+Proof. vm_compute. repeat split; reflexivity. Qed.
+
+(* the faithful model exhibits the open finding C07-redundant-ns-declaration-dropped: an instance-identifier whose prefix is
+   declared for the namespace the surrounding elements already use as their default namespace
+   <interfaces xmlns=IF><ref xmlns:if=IF>/if:interfaces</ref></interfaces>  ->  "if" is not bound at <ref> any more under a
+   prefixed envelope, and under the nexus envelope it silently means the profile's own if_manager namespace *)
+Example C07_ns_redundant_decl_refuted :
+  let doc := DNode [([], nx_if)] [DNode [(lit "if"%string, nx_if)] []] in
+  option_map (lookup (lit "if"%string)) (scope_at [] doc [0%nat]) = Some (Some nx_if)
+  /\ option_map (lookup (lit "if"%string)) (scope_at [(nx_nc, nx_B)] (place [(nx_nc, nx_B)] doc) [0%nat]) = Some None
+  /\ option_map (lookup (lit "if"%string)) (scope_at nx_env (place nx_env doc) [0%nat])
+     = Some (Some (lit "http://www.cisco.com/nxos:1.0:if_manager"%string)).
+Proof. vm_compute. repeat split; reflexivity. Qed.
